@@ -67,6 +67,8 @@ class DPTensorFastGradientClipping:
             )
         reduced_loss.backward(retain_graph=True)
         self.optimizer.zero_grad()
+        # clip with the norm the optimizer calibrates the noise to (a grad clip scheduler moves only that one)
+        self.module.max_grad_norm = self.optimizer.max_grad_norm
         coeff = self.module.get_clipping_coef()
         second_loss_per_sample = (
             coeff.to(self.loss_per_sample.device) * self.loss_per_sample
